@@ -94,6 +94,15 @@ def run(chk):
         ok = bool(cp) and all(A.text(root(c.func.value)) in (cp[0].targets[0].id, f"{me}.shallow_copy()") for c in inplace)
         chk.verdict("P2", f, f"{f.short}: in-place sweeps run on `{cp[0].targets[0].id if cp else '?'}`", True if ok else False,
                     f"{f.short}() runs an in-place algorithm on the receiver instead of a shallow copy")
+        # ... and every value returned is computed after the canonisation sweep of that copy: no shortcut that trusts the current gauge
+        from ..core.cfg import CFG
+        cfg_ = CFG(f.node)
+        can = [A.stmt_of(c, A.enclosing_map(f.node)) for c in inplace if c.func.attr == "canonize_"]
+        rets_ = [r for r in A.returns_of(f.node) if r.value is not None]
+        okc = bool(can) and all(cfg_.must_pass([r], can) for r in rets_)
+        chk.verdict("P2", (f, rets_[0] if rets_ else f.node), f"{f.short}: every return is preceded by the canonisation of the copy", True if okc else False,
+                    f"{f.short}(): a value is returned on a path that skips canonize_ of the copy: the result then depends on the gauge the state "
+                    f"happens to be in (e.g. it trusts that a central block carries the whole norm)")
 
 
     from . import e10
